@@ -37,7 +37,9 @@ THEOREMS = [
     "C17.incremental",
     "C17.incremental_given_reload",
     "C17.generate_labels_fresh",
+    "C17.generate_refuses_present_id",
     "C17.generate_refuses_taken_label",
+    "C17.generate_error_kind",
     "C17.accepted_labels_pass_add_revision",
     "C17.stepCall_refused",
     "C17.message_counterexample",
@@ -106,6 +108,7 @@ def gen_message(rng):
     return rng.choice(MSG_CLASSES[k]), k
 
 
+ILLEGAL_IDS = ["a-b1", "x+y2", "r@v3", "-lead"]
 ODD_IDS = ["it's", 'q"q', "r \u00e9v", "A.B", "x_1", "\u65e5\u672c", "sp ace", "(paren)", "per%cent", "1a", "abc"]
 
 
@@ -158,10 +161,22 @@ def gen_call(rng, st: State, all_taken):
     msg, mclass = gen_message(rng)
     call = {"kind": kind, "message": msg, "mclass": mclass, "splice": False}
     # rev id
-    if kind == "generate" or rng.random() < 0.6:
+    call["ik"] = "given"
+    x = rng.random()
+    if x < 0.025:
+        call["rev_id"] = rng.choice(ILLEGAL_IDS)          # verify_rev_id refuses @ - +
+        call["ik"] = "illegal-char"
+    elif x < 0.05 and (st.ids or st.labels):
+        # an id that is already a key of the map (a revision id or a branch label): refused before the write
+        call["rev_id"] = rng.choice(st.ids + sorted(st.labels))
+        call["ik"] = "repeated"
+    elif kind == "generate" or rng.random() < 0.6:
         call["rev_id"] = gen_rev_id(rng, all_taken)
     else:
         call["rev_id"] = None
+        call["ik"] = "generated"
+    if kind == "revision" and rng.random() < 0.12:
+        call["sql"] = True
     # head selection
     hk = "default"
     if kind == "merge":
@@ -177,8 +192,7 @@ def gen_call(rng, st: State, all_taken):
         opts = [("default", 25), ("base", 8)]
         if st.ids:
             opts += [("head-id", 22), ("heads", 3)]
-            if st.labels:
-                opts.append(("label@head", 10))
+            opts.append(("label@head", 10 if st.labels else 3))
             if len(st.heads) >= 2:
                 opts.append(("several", 10))
             if st.nonheads:
@@ -204,7 +218,12 @@ def gen_call(rng, st: State, all_taken):
         elif hk == "base":
             call["head"] = "base"
         elif hk == "label@head":
-            call["head"] = rng.choice(sorted(st.labels)) + "@head"
+            if not st.labels or rng.random() < 0.3:
+                # the part before @ may also be a (partial) revision id (_resolve_branch falls back to it)
+                call["head"] = st.ident_for(rng, rng.choice(st.ids))[0] + "@head"
+                hk = "id@head"
+            else:
+                call["head"] = rng.choice(sorted(st.labels)) + "@head"
         elif hk == "several":
             call["head"] = [st.ident_for(rng, h)[0] for h in rng.sample(st.heads, 2)]
         elif hk == "splice":
@@ -260,9 +279,15 @@ def gen_call(rng, st: State, all_taken):
             elif r < 0.35:
                 deps.append("nosuchrev")
                 kinds_.append("missing")
-            elif r < 0.45:
+            elif r < 0.43:
                 deps.append("head")
                 kinds_.append("head")
+            elif r < 0.47:
+                deps.append("heads")
+                kinds_.append("heads")
+            elif r < 0.52:
+                deps.append(st.ident_for(rng, rng.choice(st.ids))[0] + "@head")
+                kinds_.append("id@head")
             else:
                 ident, how = st.ident_for(rng, rng.choice(st.ids))
                 deps.append(ident)
@@ -289,7 +314,8 @@ def model_args(call, rid, env=None):
     extra = {}
     if env is not None:
         vp, locs = env.model_paths(call.get("version_path"))
-        extra = {"locations": locs}
+        extra = {"locations": locs, "tzOk": env.tz_ok(),
+                 "sqlNoEnv": bool(call.get("sql")) and call.get("kind") == "revision" and not env.revision_environment}
         if vp is not None:
             extra["versionPath"] = vp
     return {
@@ -353,7 +379,7 @@ class fixed_date:
         ScriptDirectory._generate_create_date = self.orig
 
 
-def judge_refused(ctx, env, sd, call, rid, res, inp, before_view):
+def judge_refused(ctx, env, sd, call, rid, res, inp, before_view, extra_tags=()):
     """a refused call must leave the directory loadable and unchanged, on disk and in memory"""
     left = [os.path.relpath(f, env.dir) for f in res["new_files"]]
     problems = []
@@ -377,14 +403,15 @@ def judge_refused(ctx, env, sd, call, rid, res, inp, before_view):
         keys = {r["id"] for r in before_view["revs"]} | {k for k, _ in before_view["labelKeys"]} | {rid}
         dup = res["err"] == "revisionError" and any(l in keys for l in G._tl(call.get("branch_label")))
         ctx.fail(inp, "refused: the call was refused (%s) but %s; file left behind: %s" % (res["err"], "; ".join(problems), left),
-                 impl={"error": res.get("exc"), "files": left}, tags=["dup-label"] if dup else [])
+                 impl={"error": res.get("exc"), "files": left}, tags=(["dup-label"] if dup else []) + list(extra_tags))
 
 
 def check_call(ctx, env, sd, model_m_hist, seg_calls, call, rid, dt, fresh_before, stream):
     """runs one call on the implementation and performs every implementation-side check.
     returns (result dict, fresh_after or None)"""
     inp = {"call": {k: v for k, v in call.items()}, "rid": rid, "history": G.hist_of_map(fresh_before.revision_map),
-           "file_template": env.file_template, "trunc": env.trunc, "locations": len(env.locations), "recursive": env.recursive, "stream": stream}
+           "file_template": env.file_template, "trunc": env.trunc, "locations": len(env.locations), "recursive": env.recursive, "stream": stream,
+           "options": env.options()}
     try:
         req = G.requested(fresh_before, call, rid)
         unordered = req.pop("down_unordered")
@@ -393,8 +420,11 @@ def check_call(ctx, env, sd, model_m_hist, seg_calls, call, rid, dt, fresh_befor
         unordered = False
         inp["request_error"] = rev_impl.err_name(e)
     before_view = G.view(fresh_before.revision_map)   # taken now: the call may mutate this very map
-    with fixed_date(dt):
+    if getattr(env, "real_date", False):
         res = G.run_call(env, sd, call, rid)
+    else:
+        with fixed_date(dt):
+            res = G.run_call(env, sd, call, rid)
     ctx.evaluation()
     out = {"res": res, "req": req, "inp": inp}
     if "err" in res:
@@ -433,6 +463,11 @@ def check_call(ctx, env, sd, model_m_hist, seg_calls, call, rid, dt, fresh_befor
     out["path"] = script.path
     with open(script.path, encoding="utf-8", newline="") as f:
         out["src"] = f.read()
+    if getattr(env, "real_date", False):
+        # the date alembic chose (timezone option): read back from the docstring
+        import re as _re
+        m_ = _re.search(r"^Create Date: (.*)$", out["src"], _re.M)
+        out["real_dt"] = datetime.datetime.fromisoformat(m_.group(1)) if m_ else None
     # file attributes of the freshly loaded revision = requested
     fr = fresh.revision_map._revision_map.get(rid)
     if fr is None or fr.revision != rid:
@@ -459,16 +494,28 @@ def run_sequences(ctx, n_seq, rng_name="seq", f12=False):
         trunc = rng.choice([None, None, None, 5, 12, 1, 60])
         two = rng.random() < 0.25
         rec = rng.random() < 0.4
-        env = G.Scratch(file_template=tmpl, trunc=trunc, two_locations=two, recursive=rec)
+        # options that a user can combine with the revision/merge commands (each a small fixed set)
+        tz = None if f12 else rng.choice([None] * 14 + ["UTC", "utc", "Europe/Paris", "Asia/Kolkata", "europe/berlin", "Mars/Phobos"])
+        real_date = tz is not None or (not f12 and rng.random() < 0.1)   # the real _generate_create_date instead of a generated date
+        sourceless = rng.random() < 0.15
+        rev_env = rng.random() < 0.07
+        hooks = rng.random() < 0.08
+        env = G.Scratch(file_template=tmpl, trunc=trunc, two_locations=two, recursive=rec, timezone=tz, sourceless=sourceless,
+                        revision_environment=rev_env, hooks=hooks)
+        env.real_date = real_date
         ctx.hist("config", "template=%s trunc=%s locations=%d" % (tmpl, trunc, 2 if two else 1))
         ctx.hist("recursive_version_locations", rec)
+        ctx.hist("options", "timezone=%s create_date=%s" % (tz, "real" if real_date else "generated"))
+        ctx.hist("options", "sourceless=%s" % sourceless)
+        ctx.hist("options", "revision_environment=%s" % rev_env)
+        ctx.hist("options", "post_write_hooks=%s" % hooks)
         try:
             run_one_sequence(ctx, rng, env, rng.randint(3, 8 if not ctx.thorough else 10), f12)
         finally:
             env.close()
 
 
-def run_one_sequence(ctx, rng, env, n_calls, f12):
+def run_one_sequence(ctx, rng, env, n_calls, f12, scripted=None):
     with warnings.catch_warnings():
         warnings.simplefilter("ignore")
         sd = env.fresh()
@@ -479,9 +526,13 @@ def run_one_sequence(ctx, rng, env, n_calls, f12):
     seg_calls = []      # model args of the accepted/refused calls of this segment, in order
     seg_records = []    # (index into seg_calls, out)
     pending = []        # finished segments: (hist0, calls, records)
-    for ci in range(n_calls):
+    for ci in range(n_calls if scripted is None else len(scripted)):
         st = State(G.view(fresh.revision_map))
-        call = gen_call(rng, st, all_taken)
+        if scripted is not None:
+            call = dict({"kind": "generate", "message": "m", "mclass": "battery", "splice": False, "hk": "battery", "lk": "battery",
+                         "dk": "battery", "ik": "battery"}, **scripted[ci])
+        else:
+            call = gen_call(rng, st, all_taken)
         if f12:
             if rng.random() < 0.75:
                 call["message"] = rng.choice(F12_MESSAGES)
@@ -494,12 +545,12 @@ def run_one_sequence(ctx, rng, env, n_calls, f12):
         vk = "none"
         x = rng.random()
         nloc = len(env.locations)
-        if call["kind"] == "merge":
-            pass  # command.merge has no version_path
+        if call["kind"] == "merge" or scripted is not None:
+            pass  # command.merge has no version_path; a scripted call says what it wants
         elif x < 0.18:
             vk = rng.choice(["subdir", "sibling", "sibling", "sibling2", "unrelated"])
             call["version_path"] = {"kind": vk, "idx": rng.randrange(nloc), "relative": rng.random() < 0.3}
-        elif nloc > 1 and (call.get("head") == "base" or not st.ids or x < 0.45):
+        elif nloc > 1 and ((call.get("head") == "base" or not st.ids) and rng.random() < 0.8 or x < 0.45):
             # with two version locations a new root needs an explicit --version-path
             vk = "location"
             call["version_path"] = {"kind": "location", "idx": rng.randrange(nloc), "relative": rng.random() < 0.3}
@@ -519,14 +570,15 @@ def run_one_sequence(ctx, rng, env, n_calls, f12):
         ctx.hist("head_selection", call["hk"])
         ctx.hist("branch_label", call["lk"])
         ctx.hist("depends_on", call["dk"])
-        ctx.hist("rev_id", "given" if call.get("rev_id") is not None else "generated")
+        ctx.hist("rev_id", call.get("ik", "given"))
+        ctx.hist("sql_option", bool(call.get("sql")))
         if call["kind"] != "generate":
             # command.* builds its own ScriptDirectory: the incremental map starts from a fresh load
             if seg_calls:
                 pending.append((seg_hist0, seg_calls, seg_records))
             seg_hist0, seg_calls, seg_records = G.hist_of_map(fresh.revision_map), [], []
         out, fresh_after = check_call(ctx, env, sd, None, seg_calls, call, rid, dt, fresh, "f12" if f12 else "main")
-        out["dt"] = dt
+        out["dt"] = out.get("real_dt") or dt
         seg_calls.append(model_args(call, rid, env))
         seg_records.append(out)
         accepted = fresh_after is not None
@@ -714,6 +766,9 @@ def gen_addition(rng, hist, k):
                 pool.remove(c)
                 deps.append(c)
     labels = ["nl%d" % k] if rng.random() < 0.3 else []
+    taken = [l for x in hist for l in x["labels"]] + ids
+    if taken and rng.random() < 0.04:
+        labels = [rng.choice(taken)]   # _map_branch_labels must refuse it
     return {"id": "new%d" % k, "down": down, "deps": deps, "labels": labels}
 
 
@@ -954,6 +1009,48 @@ def run_ignored_names(ctx):
 # ---------------------------------------------------------------------------------------
 
 
+# a small fixed battery: option/argument combinations every run has to reach, whatever the seed
+BATTERY = [
+    ({}, [
+        {"rev_id": "a1a1", "branch_label": "feat"},
+        {"rev_id": "b1b1", "head": "base"},
+        {"rev_id": "c1c1", "head": "a1a1", "depends_on": "head"},            # several heads: MultipleHeads from get_revision
+        {"rev_id": "c2c2", "head": "a1a1", "depends_on": "heads"},
+        {"rev_id": "c3c3", "head": "nosuch@head"},                           # _resolve_branch: no such branch
+        {"rev_id": "c3c4", "head": "nosuch@a1a1", "splice": True},           # _resolve_branch: neither a label nor a revision
+        {"rev_id": "c4c4", "head": "a1a1@head"},                             # a revision id before the @
+        {"rev_id": "c5c5", "head": "feat@head", "depends_on": ["feat@head", "b1b"]},
+        {"rev_id": "x-y", "head": "b1b1"},                                   # verify_rev_id
+        {"kind": "revision", "rev_id": "d1d1", "head": "b1b1", "sql": True}, # --sql without revision_environment
+        {"kind": "merge", "rev_id": "e1e1", "head": "heads", "branch_label": "merged"},
+        {"rev_id": "e1e1", "head": "e1e1"},                                  # repeated id (on itself): refused before the write
+        {"rev_id": "a1a1", "head": "e1e1"},                                  # repeated id elsewhere
+        {"rev_id": "feat", "head": "e1e1"},                                  # an id that is a branch label
+        {"rev_id": "f1f1", "head": "e1e1", "branch_label": "feat"},          # taken label: refused before the write
+    ]),
+    ({"two_locations": True, "sourceless": True, "revision_environment": True, "hooks": True, "timezone": "europe/berlin",
+      "file_template": "%(year)d_%(month).2d_%(day).2d_%(hour).2d%(minute).2d_%(second).2d-%(rev)s_%(slug)s", "trunc": 7}, [
+        {"rev_id": "a2a2", "head": "base"},                                  # several locations, no head, no --version-path
+        {"rev_id": "a2a2", "head": "base", "version_path": 1, "message": "A rather long message, truncated"},
+        {"kind": "revision", "rev_id": "b2b2", "sql": True, "message": "caf\u00e9 \u00dcber"},
+        {"kind": "revision", "rev_id": "c2c2", "head": "a2a2", "splice": True, "version_path": 0, "depends_on": "b2b"},
+        {"kind": "merge", "rev_id": "d2d2", "head": ["b2b2", "c2c2"]},
+    ]),
+    ({"timezone": "Mars/Phobos"}, [{"rev_id": "a3a3"}]),
+]
+
+
+def run_battery(ctx):
+    rng = ctx.rng("battery")
+    for opts, calls in BATTERY:
+        env = G.Scratch(**opts)
+        env.real_date = opts.get("timezone") is not None
+        try:
+            run_one_sequence(ctx, rng, env, len(calls), False, scripted=calls)
+        finally:
+            env.close()
+
+
 def run(ctx):
     with warnings.catch_warnings():
         warnings.simplefilter("ignore")
@@ -965,7 +1062,8 @@ def _run(ctx):
     run_fake(ctx, 1500 if not ctx.thorough else 40000)
     run_fake_exhaustive(ctx, 2 if not ctx.thorough else 3)
     run_ignored_names(ctx)
-    run_sequences(ctx, 120 if not ctx.thorough else 2500)
+    run_battery(ctx)
+    run_sequences(ctx, 110 if not ctx.thorough else 2500)
     run_sequences(ctx, 25 if not ctx.thorough else 400, rng_name="f12", f12=True)
 
 
@@ -983,6 +1081,7 @@ def classify(failure):
     tags = failure.get("tags", [])
     # (F5, incremental vs reloaded branch_labels, is fixed in /repo: any `incremental:` failure is a violation again)
     # (F14, a taken branch label refused only after the write, is fixed in /repo: every `refused:` failure is a violation)
+    # (F16, a --rev-id that is already a key of the map, is fixed in /repo: such a call is an ordinary refused call)
     # F12: an accepted request whose file does not load, with a `"""`, backslash or NUL in the pasted texts
     if what.startswith("docstring:") and "f12-class" in tags:
         return "F12-docstring-unescaped"
@@ -1010,6 +1109,26 @@ def check_witness(ctx, finding):
                 return "incremental labels %s, reloaded labels %s" % (
                     {r["id"]: r["labels"] for r in inc["revs"]}, {r["id"]: r["labels"] for r in fresh["revs"]})
         return None
+    if finding["id"].startswith("F16"):
+        env = G.Scratch()
+        try:
+            with warnings.catch_warnings():
+                warnings.simplefilter("ignore")
+                sd = env.fresh()
+                for r in w["history"]:
+                    sd.generate_revision(r["id"], "m", head=(r["down"] or "base"), splice=True)
+                sd.generate_revision(w["rev_id"], "again", head=w["head"])
+                inc = G.view(sd.revision_map)
+                try:
+                    fresh = G.view(env.fresh().revision_map)
+                except Exception as e:  # noqa
+                    return "accepted; the directory then fails to load with %s" % type(e).__name__
+                d = G.view_diff(inc, fresh)
+                return ("accepted; in-memory and reloaded history differ in %s" % d) if d else None
+        except Exception as e:  # noqa
+            return None
+        finally:
+            env.close()
     if finding["id"].startswith("F14"):
         env = G.Scratch()
         try:
@@ -1059,7 +1178,7 @@ def replay(ctx, case):
         return {"impl": res or err, "model_incremental": m, "model_fresh": f, "spec": spec}
     # file based: rebuild the history with generate_revision, then run the call
     env = G.Scratch(file_template=inp.get("file_template"), trunc=inp.get("trunc"), two_locations=inp.get("locations", 1) > 1,
-                    recursive=inp.get("recursive", False))
+                    recursive=inp.get("recursive", False), **(inp.get("options") or {}))
     try:
         with warnings.catch_warnings():
             warnings.simplefilter("ignore")
